@@ -6,7 +6,7 @@ RULE = ("every message length over the 55/56/64 and 111/112/128 padding boundari
         "sizes (all lengths 0..200 thorough) for all six HMAC functions and for hmac::Hmac over the three adapters fed in "
         "pieces; PBKDF2-SHA1/256/512 with 0..20 iterations and output lengths 0..200 (several hash blocks, non-multiples); "
         "all 2-chunkings of short inputs and random chunkings (with empty chunks) of long ones for the three adapters, with "
-        "reverse() taken at every position, reset in the middle, get_hash_digest; "
+        "reverse() taken at every position, reset in the middle, get_hash_digest; deterministic audit block: empty input for every entry point / variant / mode, 0x00/0x80/0xff runs at the padding boundaries, outputs with leading/trailing zero bytes, all PBKDF2 arms x password and salt lengths 0..200 around both block sizes through both entry points, sequences over every adapter entry point (update, chain, reverse, reset, clone, finalize_fixed_reset, finalize_into_reset, Digest::finalize_reset, Hash160::new, get_hash_digest as start state); "
         "non-trivial = the library returned a value; distinct by (op, arguments)")
 TRUSTED = ["hand-written Gallina model coq/Model/HashApi.v of src/hash/*.rs, src/kdf/pbkdf2_kdf.rs and of the generic code of the "
            "hmac 0.11 / pbkdf2 0.8 crates (tied by this correspondence run)",
@@ -52,13 +52,67 @@ def chunk_descr(seed, sizes):
     return ["l:%d:%d" % (seed + i, s) if s else "" for i, s in enumerate(sizes)]
 
 
+def _lcg_bytes(seed, n):
+    out, x = bytearray(), seed
+    for _ in range(n):
+        x = (x * 1664525 + 1013904223) % 4294967296
+        out.append((x >> 16) & 0xff)
+    return bytes(out)
+
+
+def _zero_byte_inputs():
+    """for every hash / HMAC / adapter: an input whose output starts with 0x00 and one whose output ends with 0x00
+    (a dropped leading zero, or a reversal that loses one, shows only on such values). Deterministic search."""
+    import hashlib, hmac as pyhmac
+    out = []
+    try:
+        rmd = lambda b: hashlib.new("ripemd160", b).digest()
+        rmd(b"")
+    except Exception:
+        return out
+    sha256 = lambda b: hashlib.sha256(b).digest()
+    fns = {"sha1": lambda b: hashlib.sha1(b).digest(), "sha256": sha256, "sha256d": lambda b: sha256(sha256(b)),
+           "sha512": lambda b: hashlib.sha512(b).digest(), "ripemd160": rmd, "hash160": lambda b: rmd(sha256(b))}
+    for name, f in fns.items():
+        need = {"lead": None, "trail": None}
+        s = 1
+        while (need["lead"] is None or need["trail"] is None) and s < 5000:
+            d = f(_lcg_bytes(s, 9))
+            if d[0] == 0 and need["lead"] is None: need["lead"] = s
+            if d[-1] == 0 and need["trail"] is None: need["trail"] = s
+            s += 1
+        for s in need.values():
+            if s is None: continue
+            out.append(("hash." + name, ["l:%d:9" % s]))
+            ad = {"sha256d": "sha256d", "sha256": "sha256r", "hash160": "hash160"}.get(name)
+            if ad:
+                out.append(("digest.chunked", [ad, "r0", "l:%d:9" % s]))
+                out.append(("digest.seq", [ad, "d", "u=l:%d:9" % s, "c", "r", "c"]))
+            if name in ("sha256", "sha256d"):
+                # get_hash_digest(Sha256d, m) finalizes to sha256d(m); (Sha256, m) to sha256(m)
+                out.append(("digest.get", [name, "0", "l:%d:9" % s])); out.append(("digest.get", [name, "1", "l:%d:9" % s]))
+    return out
+
+
+def _zero_byte_seeds():
+    import hashlib, hmac as pyhmac
+    found, want = [], {"k0": None, "c0": None}
+    s = 1
+    while (want["k0"] is None or want["c0"] is None) and s < 5000:
+        i = pyhmac.new(b"Bitcoin seed", _lcg_bytes(s, 16), "sha512").digest()
+        if i[0] == 0 and want["k0"] is None: want["k0"] = s
+        if i[32] == 0 and want["c0"] is None: want["c0"] = s
+        s += 1
+    return ["l:%d:16" % v for v in want.values() if v is not None]
+
+
 def generate(rng, tier):
     thorough = tier == "thorough"
     cases = []
     A = lambda op, args: cases.append((op, [str(a) for a in args]))
 
     # ---------------------------------------------------------------- hashes
-    top = 300 if thorough else 136
+    top = 300 if thorough else 260      # every residue class mod 256, both tiers
     for h in HASHES:
         for n in range(0, top + 1):
             A("hash." + h, [data(rng, n)])
@@ -144,6 +198,86 @@ def generate(rng, tier):
         # BIP39 shape: PBKDF2-HMAC-SHA512, 2048 rounds, 64 bytes
         A("kdf.pbkdf2", ["6162616e646f6e206162616e646f6e2061626f7574", "6d6e656d6f6e6963", "sha512", 2048, 64])
         A("kdf.pbkdf2", ["70617373776f7264", "73616c74", "sha1", 4096, 20])
+
+    # ---------------------------------------------------------------- audit classes (deterministic)
+    # (1) empty input for every entry point and variant; inputs made of 0x00 / 0x80 / 0xff bytes at the padding
+    #     boundaries; outputs with a leading / trailing zero byte (searched with hashlib, deterministic)
+    for h in HASHES:
+        A("hash." + h, [""])
+        for bv in ["00", "80", "ff"]:
+            for n in [1, 55, 56, 63, 64, 65, 111, 112, 119, 120, 127, 128, 129]:
+                A("hash." + h, ["r:%s:%d" % (bv, n)])
+        for (a, b) in [("", ""), ("", "6b"), ("6d", ""), ("", "r:00:64"), ("", "r:00:65"), ("", "r:00:128"), ("", "r:00:129"),
+                       ("r:00:64", ""), ("00", "00"), ("r:80:64", "r:80:64"), ("r:ff:65", "r:ff:65"), ("r:36:64", "r:5c:64"), ("r:5c:128", "r:36:128")]:
+            A("hmac." + h, [a, b])
+        # same bytes as key and as message; key = ipad / opad constants
+        x = rnd_hex(rng, 33)
+        A("hmac." + h, [x, x])
+        # (2) every HMAC x key lengths around BOTH block sizes and long keys, fixed message; message length bands
+        for kl in [63, 64, 65, 66, 127, 128, 129, 130, 199, 200, 255, 256, 257]:
+            A("hmac." + h, ["6d7367", "l:%d:%d" % (1000 + kl, kl)])
+        for ml in [119, 120, 183, 184, 247, 248, 255, 256, 257, 300]:
+            A("hmac." + h, ["l:%d:%d" % (2000 + ml, ml), "6b6579"])
+    for (name, fn) in _zero_byte_inputs():
+        A(name, fn)
+    # (2)+(6) PBKDF2: every hash arm x password lengths around both block sizes and long, 1 and 2 rounds,
+    #     through both entry points; output lengths at the u8 boundary; password = salt; empty vs one zero byte
+    for algo in ALGOS:
+        hl = HLEN[algo]
+        for pl in [0, 1, 63, 64, 65, 127, 128, 129, 200]:
+            A("kdf.pbkdf2", ["l:%d:%d" % (300 + pl, pl), "73616c74", algo, 1, hl])
+            A("kdf.pbkdf2_impl", ["l:%d:%d" % (300 + pl, pl), "73616c74", algo, 2, hl + 1])
+        for sl in [0, 1, 63, 64, 65, 127, 128, 129, 200]:
+            A("kdf.pbkdf2_impl", ["70617373", "l:%d:%d" % (400 + sl, sl), algo, 1, hl])
+        for L in [0, 1, 255, 256, 257]:
+            A("kdf.pbkdf2", ["7077", "73", algo, 1, L])
+        A("kdf.pbkdf2", ["r:61:70", "r:61:70", algo, 2, hl])
+        A("kdf.pbkdf2_impl", ["", "", algo, 0, 0])
+        A("kdf.pbkdf2_impl", ["00", "", algo, 1, hl]); A("kdf.pbkdf2_impl", ["", "00", algo, 1, hl])
+        A("kdf.pbkdf2_impl", ["r:00:64", "r:00:64", algo, 1, hl]); A("kdf.pbkdf2_impl", ["r:00:65", "r:80:4", algo, 3, 2 * hl + 1])
+        A("kdf.pbkdf2_random", ["", algo, 0, 0]); A("kdf.pbkdf2_random", ["r:61:129", algo, 1, 1])
+    # (1) get_hash_digest: both SigningHash values x reversed or not x the listed lengths (empty first)
+    for algo in ["sha256", "sha256d"]:
+        for rv in [0, 1]:
+            for n in [0, 1, 31, 32, 33, 55, 56, 63, 64, 65]:
+                A("digest.get", [algo, rv, "l:%d:%d" % (500 + n, n) if n else ""])
+            A("digest.get", [algo, rv, "r:00:32"]); A("digest.get", [algo, rv, "r:80:1"])
+    # (3)+(4)+(5) every adapter entry point on the in-memory object, in sequences
+    for ad in ADAPTERS:
+        for m in ["", "00", "616263", "r:00:64", "l:77:65", "l:78:200"]:
+            A("digest.oneshot", [ad, m])
+        starts = ["d"] + (["t", "f"] if ad == "hash160" else []) + (["g0=", "g1=", "g0=616263", "g1=616263", "g0=l:9:64", "g1=l:9:65", "g1=r:00:32"] if ad == "sha256r" else [])
+        seqs = [
+            [],                                   # nothing at all: the empty input
+            ["r"], ["x"], ["f"], ["i"], ["g"], ["c"],
+            ["r", "r"], ["r", "x"], ["x", "r"], ["r", "f"], ["r", "i"], ["r", "g"], ["f", "r"], ["r", "c", "c"],
+            ["u="], ["h="], ["u=", "u="], ["u=", "r", "u="],
+            ["u=616263"], ["h=616263"], ["u=6162", "h=63"], ["h=6162", "u=63"],
+            ["u=616263", "f"], ["u=616263", "i"], ["u=616263", "g"], ["u=616263", "x"], ["u=616263", "c"],
+            ["u=616263", "f", "u=616263"], ["u=616263", "i", "u=646566"], ["u=616263", "g", "u=646566"], ["u=616263", "x", "u=646566"],
+            ["u=616263", "f", "f"], ["u=616263", "f", "i", "g"], ["f", "u=616263", "f", "u=616263"],
+            ["r", "u=616263", "f", "u=646566", "f"], ["u=616263", "r", "f", "u=646566"], ["u=616263", "f", "r", "u=646566"],
+            ["u=616263", "c", "u=646566", "c", "r", "c"], ["u=616263", "c", "x", "c"], ["c", "u=616263", "c"],
+            ["u=616263", "x", "x", "u=616263", "r", "x", "u=616263"],
+            ["u=l:5:55", "u=l:6:1", "u=l:7:8", "c", "u=l:8:64", "f", "u=l:9:119", "i", "u=l:10:120"],
+            ["u=l:5:64", "f", "u=l:5:64", "r", "g", "u=l:5:64"],
+            ["h=r:00:32", "c", "h=r:00:32", "c"], ["u=r:80:55", "c", "u=80", "c"],
+        ]
+        for st in starts:
+            for sq in seqs:
+                A("digest.seq", [ad, st] + sq)
+        # empty input under reversed mode and after reset / finalize_reset, old ops too
+        A("digest.chunked", [ad, "r0", ""]); A("digest.chunked", [ad, "r1", "", ""]); A("digest.chunked", [ad, "n", "", "", ""])
+        A("digest.reset", [ad, "r0", 0]); A("digest.reset", [ad, "r0", 1, ""]); A("digest.reset", [ad, "n", 1, "", ""]); A("digest.reset", [ad, "r0", 2, "616263", "", ""])
+    # hmac::Hmac<D> over every digest: empty key / empty message / key lengths around the digest's block size
+    for d in DIGESTS:
+        A("hmac.chunked", [d, ""]); A("hmac.chunked", [d, "", ""]); A("hmac.chunked", [d, "", "", "616263"])
+        for kl in [63, 64, 65, 127, 128, 129, 200]:
+            A("hmac.chunked", [d, "l:%d:%d" % (600 + kl, kl), "6d", "7367"])
+    # from_seed: leading zero byte in the private key / chain code halves of I (searched, deterministic); empty seed
+    A("kdf.seed", [""]); A("kdf.seed", ["00"]); A("kdf.seed", ["r:00:64"]); A("kdf.seed", ["r:ff:64"])
+    for sd in _zero_byte_seeds():
+        A("kdf.seed", [sd])
 
     # ---------------------------------------------------------------- adapters
     for ad in ADAPTERS:
